@@ -49,3 +49,49 @@ Definition load_dataframes (loc : location) : tables :=
 
 (* the files a save creates in an empty location *)
 Definition files_written (skip_empty : bool) (t : tables) : list str := map fst (save_dataframes skip_empty t []).
+
+(* ------------------------------------------------------------------ cells: no text is a marker *)
+
+(* DataFrame.to_csv(na_rep=...) / pd.read_csv(na_filter=False | na_values=...).fillna('') at the level of one cell.
+   A cell without a value (None: the description of an entry without description) is written as [na_rep]; a cell
+   text that is one of [na_values] is read as empty.  The code: na_rep = '' (pandas default) and na_filter=False,
+   i.e. no marker at all.  Any other choice is NOT the code. *)
+Definition csv_write_cell (na_rep : str) (c : option str) : str :=
+  match c with None => na_rep | Some s => s end.
+
+Definition csv_read_cell (na_values : list str) (s : str) : str :=
+  if existsb (str_eqb s) na_values then [] else s.
+
+(* what the schema reader makes of a cell: '' is no description *)
+Definition cell_value (s : str) : option str := match s with [] => None | _ => Some s end.
+
+(* ------------------------------------------------------------------ the save location *)
+
+(* df_util.save_dataframes / convert_filenames_to_dict: the ten file names of a location.  A location is given by
+   the folder it lies in ([parent], path components) and its last name [name].  A name that ends in .tsv names the
+   files <parent>/<stem>_<Suffix>.tsv, any other name -- WHATEVER dots it holds -- is a folder holding
+   <name>/<name>_<Suffix>.tsv.  The writer recognises the suffix in any letter case; the reader compared it
+   exactly before fix commit (proposed) fix-F8 ([fixed8] = false) and ignores case with it. *)
+Definition is_dot_tsv_ci (name : str) : bool :=
+  match rev name with
+  | v :: s :: t :: d :: _ :: _ =>
+      N.eqb d 46 && (N.eqb t 116 || N.eqb t 84) && (N.eqb s 115 || N.eqb s 83) && (N.eqb v 118 || N.eqb v 86)
+  | _ => false
+  end.
+
+Definition is_dot_tsv_cs (name : str) : bool :=
+  match rev name with
+  | v :: s :: t :: d :: _ :: _ => N.eqb d 46 && N.eqb t 116 && N.eqb s 115 && N.eqb v 118
+  | _ => false
+  end.
+
+Definition tsv_file (dir : list str) (stem sfx : str) : list str * str :=
+  (dir, stem ++ 95%N :: sfx ++ [46; 116; 115; 118]%N).
+
+Definition location_files (suffix_found : bool) (parent : list str) (name : str) : list (list str * str) :=
+  if suffix_found then map (tsv_file parent (firstn (length name - 4) name)) df_suffixes
+  else map (tsv_file (parent ++ [name]) name) df_suffixes.
+
+Definition writer_files (parent : list str) (name : str) := location_files (is_dot_tsv_ci name) parent name.
+Definition reader_files (fixed8 : bool) (parent : list str) (name : str) :=
+  location_files (if fixed8 then is_dot_tsv_ci name else is_dot_tsv_cs name) parent name.
